@@ -483,15 +483,17 @@ func (v *Validator) lookupEntityAttr(lub entityLUB, attr types.String) *attribut
 	return result
 }
 
-// entityHasTags returns true if all entities in the LUB have tags defined.
+// entityHasTags returns true if at least one entity type in the LUB has tags defined. Only
+// when none does may `hasTag` be typed False: a value of a union type can be an entity of
+// the one member type that does declare tags.
 func (v *Validator) entityHasTags(lub entityLUB) bool {
 	for _, et := range lub.elements {
 		entity := v.schema.Entities[et]
-		if entity.Tags == nil {
-			return false
+		if entity.Tags != nil {
+			return true
 		}
 	}
-	return true
+	return false
 }
 
 // entityTagType returns the LUB of the tag types for all entities in the LUB.
